@@ -297,7 +297,7 @@ PROPS["C19"] = dict(
 
 PROPS["C11"] = dict(
     level="fault_enumeration",
-    budget_s=dict(quick=300, thorough=1500),
+    budget_s=dict(quick=300, thorough=2700),
     parts=[dict(name="crash_and_handles", bin="C11", flavour="plain")],
     extra_bins=["obsdump"],
     manifest=dict(
